@@ -177,6 +177,16 @@ def main() -> int:
                 arg = {"$t": "file", "v": "YWJj", "file_name": "f", "mime_type": "x/y"} if target.endswith("octet-stream") else {"$t": "model", "cls": "ZqCtTwoBody", "v": {"a": "s-1"}}
                 add("content_type_overrides", "sent_as_itself:" + target, doc=dt, meta="none", cfg={"content_type_overrides": {"application/vnd.zq.upload": target}},
                     sandbox=[{"a": "call", "module": "api.default.zq_ct_two", "variants": ["sync_detailed"], "args": {"body": arg}, "client": {}, "response": {"status": 200}}])
+                # ... and next to another request media type of the same operation (the dispatch branch of the overridden type sets its own Content-Type)
+                if not target.endswith("octet-stream"):
+                    for first_ in (True, False):
+                        dm = docs.clone(d)
+                        dm["components"]["schemas"]["ZqUp"] = {"type": "object", "properties": {"a": {"type": "string"}}, "required": ["a"]}
+                        dm["components"]["schemas"]["ZqJs"] = {"type": "object", "properties": {"j": {"type": "integer"}}, "required": ["j"]}
+                        pair_ = [("application/vnd.zq.upload", {"schema": {"$ref": "#/components/schemas/ZqUp"}}), ("application/json", {"schema": {"$ref": "#/components/schemas/ZqJs"}})]
+                        dm["paths"]["/zq-ct2"] = {"post": {"operationId": "zq_ct_two", "requestBody": {"content": dict(pair_ if first_ else pair_[::-1])}, "responses": {"200": {"description": "ok"}}}}
+                        add("content_type_overrides", "sent_as_itself:" + target, doc=dm, meta="none", cfg={"content_type_overrides": {"application/vnd.zq.upload": target}},
+                            sandbox=[{"a": "call", "module": "api.default.zq_ct_two", "variants": ["sync_detailed"], "args": {"body": {"$t": "model", "cls": "ZqUp", "v": {"a": "s-1"}}}, "client": {}, "response": {"status": 200}}])
         if bi % 4 == 1:
             # multi-tag operations whose module names coincide across tags
             dg = docs.clone(d)
